@@ -17,7 +17,7 @@ ASSUMPTIONS = ["scipy's sf kernels compute the named distributions (trusted, com
                "axioms 0 <= sf <= 1 and sf non-increasing in its first argument", "parameters positive", "time items strictly increasing",
                "log-normal transform: only exp(log x) = x for x > 0 is used about exp/log/sqrt"]
 OUTSIDE = ["numerical accuracy of scipy's kernels", "n_pts_per_interval outside 1..10", "float rounding of ages and weights", "n > 4"]
-VARIANTS = 'inflow_at start / end also with the multi-point rules; a model evaluated after another model'
+VARIANTS = 'inflow_at start / end also with the multi-point rules; a model evaluated after another model; set_prms with keywords in reversed order'
 BOUNDS = {"quick": dict(n="3 (unit, const grids), 4 (uneven grids)", classes=5, inflow_at=["start", "middle", "end"], n_pts="1..10 (all ten rules)", param_shapes="scalar, (r), (t), (t,r), (r,t)", grids=dsm.GRIDS),
           "thorough": dict(n=[3, 4], classes=5, inflow_at=["start", "middle", "end"], n_pts="1..10", param_shapes="as quick + (r,p) orders", grids=dsm.GRIDS)}
 for _t in BOUNDS.values():
